@@ -69,6 +69,12 @@ CHECKS = {
     design="5/C02",
     note="Trusted: Lean kernel; the fibertree contract of splitUniform/mergeRanks (FT/Ops.lean = minifiber, compared on random tensors); per-program correctness rests on execution over sampled inputs and specifications, not on a theorem.",
     technique="Lean 4 proofs of the partition algebra (partial) + differential execution of the real emitted programs against the unpartitioned program and a dense oracle"),
+ "C03": dict(
+    category="proof",
+    text="PARTIAL. Lean theorems (Props/C03), for every fiber, chunk size and tensor: follower_agrees - when a follower is split with splitNonUniform at the keys of the leader's occupancy chunks (every n-th coordinate of the leader's fiber), every coordinate the leader holds lands in the group keyed by the leader's own chunk, so elements that must meet are neither separated nor met twice; groupOf_spec (a coordinate goes to the largest boundary not above it); leaderKeys_sorted; flatten_unflatten_id (unflattenRanks undoes flattenRanks(tuple) point for point). NOT proved: the composition with the loop nest (dynamic splits inside loops, several levels, occupancy beneath a shape split, occupancy of a flattened rank). That part is decided per generated specification (G3) by executing the real program against the unmapped compile and the dense oracle on sampled inputs with leader/follower of unequal support; the Lean fiber/tensor operations are compared with the executing stand-in on random data.",
+    design="5/C03",
+    note="Trusted: Lean kernel; the fibertree contract of splitEqual/splitNonUniform/flattenRanks (= minifiber, compared on random fibers/tensors); per-program correctness rests on execution over sampled inputs and specifications.",
+    technique="Lean 4 proofs of the leader/follower grouping and flatten algebra (partial) + differential execution of the real emitted programs against the unmapped program and a dense oracle"),
 }
 
 NOT_YET = {}
